@@ -458,15 +458,22 @@ package nfa
 //@   props C15
 //@   opt safety=off
 //@   opt frame=off
+//@   opt timeout_factor=4
 //@   requires bOK(c)
 //@   requires 0x800 <= lo && lo <= hi && hi <= 0xFFFF && (hi <= 0xD7FF || lo >= 0xE000)
 //@   modifies c.builder.states, c.builder.states[*], c.builder.byteClassSet.*
 //@   ghost var nxt = lo
-//@   after call AddByteRange#3: ch3(c.builder, lastcall, endState) && box3ok(c.builder.states[lastcall].lo, c.builder.states[lastcall].hi, c.builder.states[c.builder.states[lastcall].next].lo, c.builder.states[c.builder.states[lastcall].next].hi, c.builder.states[c.builder.states[c.builder.states[lastcall].next].next].lo, c.builder.states[c.builder.states[c.builder.states[lastcall].next].next].hi) && dec3(c.builder.states[lastcall].lo, c.builder.states[c.builder.states[lastcall].next].lo, c.builder.states[c.builder.states[c.builder.states[lastcall].next].next].lo) == nxt
+//@   after call AddByteRange#3: ch3(c.builder, lastcall, endState)
+//@   after call AddByteRange#3: box3ok(c.builder.states[lastcall].lo, c.builder.states[lastcall].hi, c.builder.states[c.builder.states[lastcall].next].lo, c.builder.states[c.builder.states[lastcall].next].hi, c.builder.states[c.builder.states[c.builder.states[lastcall].next].next].lo, c.builder.states[c.builder.states[c.builder.states[lastcall].next].next].hi)
+//@   after call AddByteRange#3: dec3(c.builder.states[lastcall].lo, c.builder.states[c.builder.states[lastcall].next].lo, c.builder.states[c.builder.states[c.builder.states[lastcall].next].next].lo) == nxt
 //@   after call AddByteRange#3: ghost nxt = dec3(c.builder.states[lastcall].hi, c.builder.states[c.builder.states[lastcall].next].hi, c.builder.states[c.builder.states[c.builder.states[lastcall].next].next].hi) + 1
-//@   after call AddByteRange#6: ch3(c.builder, lastcall, endState) && box3ok(c.builder.states[lastcall].lo, c.builder.states[lastcall].hi, c.builder.states[c.builder.states[lastcall].next].lo, c.builder.states[c.builder.states[lastcall].next].hi, c.builder.states[c.builder.states[c.builder.states[lastcall].next].next].lo, c.builder.states[c.builder.states[c.builder.states[lastcall].next].next].hi) && dec3(c.builder.states[lastcall].lo, c.builder.states[c.builder.states[lastcall].next].lo, c.builder.states[c.builder.states[c.builder.states[lastcall].next].next].lo) == nxt
+//@   after call AddByteRange#6: ch3(c.builder, lastcall, endState)
+//@   after call AddByteRange#6: box3ok(c.builder.states[lastcall].lo, c.builder.states[lastcall].hi, c.builder.states[c.builder.states[lastcall].next].lo, c.builder.states[c.builder.states[lastcall].next].hi, c.builder.states[c.builder.states[c.builder.states[lastcall].next].next].lo, c.builder.states[c.builder.states[c.builder.states[lastcall].next].next].hi)
+//@   after call AddByteRange#6: dec3(c.builder.states[lastcall].lo, c.builder.states[c.builder.states[lastcall].next].lo, c.builder.states[c.builder.states[c.builder.states[lastcall].next].next].lo) == nxt
 //@   after call AddByteRange#6: ghost nxt = dec3(c.builder.states[lastcall].hi, c.builder.states[c.builder.states[lastcall].next].hi, c.builder.states[c.builder.states[c.builder.states[lastcall].next].next].hi) + 1
-//@   after call AddByteRange#9: ch3(c.builder, lastcall, endState) && box3ok(c.builder.states[lastcall].lo, c.builder.states[lastcall].hi, c.builder.states[c.builder.states[lastcall].next].lo, c.builder.states[c.builder.states[lastcall].next].hi, c.builder.states[c.builder.states[c.builder.states[lastcall].next].next].lo, c.builder.states[c.builder.states[c.builder.states[lastcall].next].next].hi) && dec3(c.builder.states[lastcall].lo, c.builder.states[c.builder.states[lastcall].next].lo, c.builder.states[c.builder.states[c.builder.states[lastcall].next].next].lo) == nxt
+//@   after call AddByteRange#9: ch3(c.builder, lastcall, endState)
+//@   after call AddByteRange#9: box3ok(c.builder.states[lastcall].lo, c.builder.states[lastcall].hi, c.builder.states[c.builder.states[lastcall].next].lo, c.builder.states[c.builder.states[lastcall].next].hi, c.builder.states[c.builder.states[c.builder.states[lastcall].next].next].lo, c.builder.states[c.builder.states[c.builder.states[lastcall].next].next].hi)
+//@   after call AddByteRange#9: dec3(c.builder.states[lastcall].lo, c.builder.states[c.builder.states[lastcall].next].lo, c.builder.states[c.builder.states[c.builder.states[lastcall].next].next].lo) == nxt
 //@   after call AddByteRange#9: ghost nxt = dec3(c.builder.states[lastcall].hi, c.builder.states[c.builder.states[lastcall].next].hi, c.builder.states[c.builder.states[c.builder.states[lastcall].next].next].hi) + 1
 //@   loop 1: invariant off(c.builder.states) == 0 && loCont1 <= cont1Val && int(cont1Val) <= int(hiCont1) + 1
 //@   loop 1: invariant nxt == ite(cont1Val == loCont1, lo, ite(cont1Val > hiCont1, hi + 1, dec3(loLead, cont1Val, 128)))
@@ -545,6 +552,36 @@ package nfa
 //@   after call compileUTF84ByteRange: lastarg1 == nxt
 //@   after call compileUTF84ByteRange: ghost nxt = lastarg2 + 1
 //@   ensures nxt == old(hi) + 1
+
+// the "any valid multi-byte sequence + any invalid byte" shortcut of large classes accepts every code point from
+// U+0080 up: it may be taken only when the class's single non-ASCII range spans U+0080..U+10FFFF. Protocol contract:
+// only this fact is checked (at the call of buildUTF8NonASCIIBranches); how nonASCIIRanges is derived from `ranges`
+// and everything else about the function is unverified (callees are trusted stubs with honest frames).
+//@ trusted func (*Builder).AddEpsilon
+//@   modifies b.states, b.states[*]
+//@ trusted func (*Builder).AddSparse
+//@   modifies b.states, b.states[*], b.byteClassSet.*
+//@ trusted func (*Compiler).buildSplitChain
+//@   modifies c.builder.states, c.builder.states[*]
+//@ trusted func (*Compiler).compileNoMatch
+//@   modifies c.builder.states, c.builder.states[*]
+//@ spec func dec4(b0 byte, b1 byte, b2 byte, b3 byte) int = (int(b0) - 240) * 262144 + (int(b1) - 128) * 4096 + (int(b2) - 128) * 64 + (int(b3) - 128)
+//@ spec func ch4(b *Builder, s StateID, end StateID) bool = int(s) < len(b.states) && b.states[s].kind == StateByteRange && ch3(b, b.states[s].next, end)
+//@ spec func box4ok(l0 byte, h0 byte, l1 byte, h1 byte, l2 byte, h2 byte, l3 byte, h3 byte) bool = 240 <= l0 && l0 <= h0 && h0 <= 244 && 128 <= l1 && l1 <= h1 && h1 <= 191 && 128 <= l2 && l2 <= h2 && h2 <= 191 && 128 <= l3 && l3 <= h3 && h3 <= 191 && (l0 == h0 || (l1 == 128 && h1 == 191 && l2 == 128 && h2 == 191 && l3 == 128 && h3 == 191)) && (l1 == h1 || (l2 == 128 && h2 == 191 && l3 == 128 && h3 == 191)) && (l2 == h2 || (l3 == 128 && h3 == 191))
+
+// buildUTF8NonASCIIBranches builds its chains through a closure that captures the compiler: closures with free
+// variables are outside govc's subset, so the cover protocol (dec4/ch4/box4ok above are ready for it) is not checked
+// for it: ASSUMED to cover U+0080..U+10FFFF without the surrogates.
+//@ trusted func (*Compiler).buildUTF8NonASCIIBranches
+//@   modifies c.builder.states, c.builder.states[*], c.builder.byteClassSet.*
+
+//@ func (*Compiler).compileUnicodeClassLarge
+//@   props C15
+//@   opt safety=off
+//@   opt frame=off
+//@   requires c != nil && c.builder != nil
+//@   modifies c.builder.states, c.builder.states[*], c.builder.byteClassSet.*
+//@   after call buildUTF8NonASCIIBranches: len(nonASCIIRanges) == 1 && nonASCIIRanges[0][0] <= 0x80 && nonASCIIRanges[0][1] >= 0x10FFFF
 
 // ---- character-class repetition searcher (C19): closed form = runs of table bytes ----
 
